@@ -113,7 +113,7 @@ fn gen_rules(r: &mut Rng, host: &str, t1: &str) -> Vec<String> {
 
 pub fn run(ctx: &mut Ctx) {
     let sub = "redirect";
-    let cases = ctx.n(300_000, 4_000_000);
+    let cases = ctx.n(300_000, 16_000_000);
     for idx in 0..cases {
         if ctx.stop() {
             break;
